@@ -28,6 +28,8 @@ Exp(w) ==
     [] k[1] = "all" -> [known |-> TRUE, t |-> w.t + Max2(k[2], k[3]), ok |-> TRUE, v |-> <<Min2(k[2], k[3]) + 5, Max2(k[2], k[3]) + 5>>, amb |-> FALSE]
     [] k[1] = "nest" ->     \* (timeout(a) | timeout(b)) & timeout(c)
          [known |-> TRUE, t |-> w.t + Max2(Min2(k[2], k[3]), k[4]), ok |-> TRUE, v |-> <<>>, amb |-> FALSE]
+    [] k[1] = "nest2" ->    \* (timeout(a) & timeout(b)) | timeout(c)
+         [known |-> TRUE, t |-> w.t + Min2(Max2(k[2], k[3]), k[4]), ok |-> TRUE, v |-> <<>>, amb |-> FALSE]
     [] k[1] = "any" ->
          LET te == Max2(w.t, ev[k[3]].t) tt == w.t + k[2] IN
          IF ev[k[3]].trig /\ te = tt THEN [known |-> TRUE, t |-> te, ok |-> TRUE, v |-> <<>>, amb |-> TRUE]   \* a tie
@@ -41,6 +43,10 @@ Members(k, v) ==
   /\ {d + 5 : d \in {d \in ds : d < T}} \subseteq SeqSet(v)
   /\ SeqSet(v) \subseteq {d + 5 : d \in {d \in ds : d <= T}}
   /\ (k[4] + 5) \in SeqSet(v)
+Members2(k, v) ==
+  LET T == Min2(Max2(k[2], k[3]), k[4])  ds == {k[2], k[3], k[4]} IN
+  /\ {d + 5 : d \in {d \in ds : d < T}} \subseteq SeqSet(v)
+  /\ SeqSet(v) \subseteq {d + 5 : d \in {d \in ds : d <= T}}
 Step ==
   /\ l <= Len(Traces[tid]) /\ bad = ""
   /\ l' = l + 1 /\ UNCHANGED tid
@@ -84,6 +90,7 @@ Step ==
                ELSE IF x.ok /\ x.v # <<>> /\ e.v # x.v THEN Fail("C18.resume_value")
                \* a condition exposes exactly the members that have fired by then
                ELSE IF wait[p].k[1] = "nest" /\ ~Members(wait[p].k, e.v) THEN Fail("C18.condition_members")
+               ELSE IF wait[p].k[1] = "nest2" /\ ~Members2(wait[p].k, e.v) THEN Fail("C18.condition_members")
                \* an interrupt issued strictly before this time should have cut the wait short
                ELSE IF intq[p] # <<>> /\ Head(intq[p]).t < t THEN Fail("C18.interrupt_lost")
                ELSE wait' = [wait EXCEPT ![p] = NoWait] /\ UNCHANGED <<ev, pend, intq, bad>>
